@@ -43,6 +43,7 @@ from workflows.runtime.types.plugin import (
     WaitResultTick,
 )
 from workflows.runtime.types.ticks import (
+    TickIdleCheck,
     TickIdleRelease,
     WorkflowTick,
 )
@@ -79,6 +80,14 @@ class _DBOSIdleReleaseInternalRunAdapter(BaseInternalRunAdapterDecorator):
         if isinstance(result, WaitResultTick):
             self._runtime._cancel_deferred_release(self.run_id)
         return result
+
+    @override
+    async def on_tick(self, tick: WorkflowTick) -> None:
+        if not isinstance(tick, TickIdleCheck):
+            # The pull task may have received this tick before the idle event
+            # that armed the timer was published; the run is busy either way.
+            self._runtime._cancel_deferred_release(self.run_id)
+        await super().on_tick(tick)
 
     @override
     async def write_to_event_stream(self, event: Event) -> None:
